@@ -364,25 +364,19 @@ func (m *Message) ReadFrom(r io.Reader) error {
 }
 
 func readSection(reader *bufio.Reader, readN int) ([]byte, error) {
-	buf := make([]byte, readN)
-
-	var err error
-	n := 0
-	for n < readN {
-		m, err := reader.Read(buf[n:])
-		if err != nil {
-			break
-		}
-		n += m
+	if readN < 0 {
+		return nil, fmt.Errorf("Invalid section size %d", readN)
 	}
 
-	if err != nil {
-		return buf, err
-	}
+	// The size is given by the (remote's) header. Let the buffer grow with the
+	// data actually present instead of trusting the size with an allocation.
+	var section bytes.Buffer
+	n, _ := io.CopyN(&section, reader, int64(readN))
+	buf := section.Bytes()
 
 	end, err := reader.ReadString('\n')
 	switch {
-	case n != readN:
+	case n != int64(readN):
 		return buf, io.ErrUnexpectedEOF
 	case err == io.EOF:
 		// That's ok
